@@ -26,7 +26,8 @@ def pools(quick):
     P_[ADDR] = [addr(0, 0), addr(0, 255), addr(1, 1), addr(2, 2), addr(3, 3), addr(4, 0), addr(4, 255), addr(6, 0), addr(6, 9),
                 addr(4, 0, 'a'), addr(4, 0, 'b'), addr(0, 255, 'a'), addr(0, 255, 'ab')]
     P_[('key',)] = [KEY(0, 32, 0, 0), KEY(0, 32, 255, 1), KEY(1, 33, 2, 0), KEY(1, 33, 2, 200), KEY(2, 33, 3, 0), KEY(2, 33, 3, 9),
-                    KEY(3, 48, 0, 0), KEY(3, 48, 128, 5)]
+                    KEY(3, 48, 0, 0), KEY(3, 48, 128, 5),
+                    KEY(1, 33, 3, 0), KEY(1, 33, 3, 100), KEY(2, 33, 2, 9), KEY(2, 33, 2, 77)]      # the other y parity: against same-curve keys of the first parity only the order laws are checked
     P_[('signature',)] = [SIG(0, 0), SIG(0, 1), SIG(255, 0), SIG(7, 7)]
     P_[('chain_id',)] = [('o', (0, 0, 0, 0)), ('o', (0, 0, 0, 1)), ('o', (122, 6, 167, 112)), ('o', (255, 0, 0, 0))]
     base = [INT, STR, BOOL]
@@ -106,6 +107,7 @@ def run(ctx):
             why = has_excl(t, a, b_)
             if why:
                 ctx.skip('excluded: ' + why)
+                law_only(ctx, t, a, b_, why)
                 continue
             inits.append((S(t, a), S(t, b_)))
     fams['compare'] = dict(depth=1, maxstack=3, inits=inits, alphabet=[('COMPARE',)])
@@ -166,6 +168,19 @@ def run(ctx):
     ctx.extra['comparisons_with_an_annotated_operand'] = nann
     ctx.extra['collections_built_from_python_objects'] = npy
     ctx.exhaustive = True
+
+
+def law_only(ctx, t, a, b_, why):
+    """Where the reference order between two values is not certain enough to be demanded, the laws of a total order still are:
+    the two directions are opposite and distinct values are not equal."""
+    x, y = compare_annotated(t, a, b_, -1), compare_annotated(t, b_, a, -1)
+    ctx.count(('law', t, a, b_), nontrivial=True)
+    if not (isinstance(x, int) and isinstance(y, int) and x == -y and x != 0):
+        cls = t[0]
+        if t == ('key',):
+            cls = 'key:%s:%s' % ({1: 'secp256k1', 2: 'p256'}.get(a[1][0], 'other'), 'same-x-opposite-parity' if a[1][2:] == b_[1][2:] else 'different-x')
+        ctx.mismatch('C03:order-laws:%s' % cls, 'COMPARE of the distinct %s values %s and %s gives %s, in the other direction %s (%s): not a total order' % (t[0], a, b_, x, y, why),
+                     {'family': 'law', 'type': t, 'a': a, 'b': b_})
 
 
 def has_inner_pair(t):
